@@ -150,7 +150,8 @@ def parse_google_drive_url(url):
     if path[1] != "d":
         return None
 
-    if path[-1] == "pub":
+    # NOTE: a public link is /<type>/d/e/<id>/pub, "pub" right after /d/ is an id
+    if path[-1] == "pub" and len(path) > 3:
         if path[2] != "e":
             return None
 
